@@ -776,11 +776,12 @@ def run(ctx: Ctx) -> int:
                         continue
                     for reuse in (False, True):
                         pre = [a, dict(b, reuse=reuse)]
-                        d3_space += 1
+                        # (reuse, reuse) also brings its twin (reuse in the prefix only): see _run_prefix_then
+                        d3_space += 2 if reuse else 1
                         d3.setdefault(ev_id(pre[0]) + ">" + ev_id(pre[1]), (pre, []))[1].append(dict(c, reuse=reuse))
         ctx.cap(
             "depth 3 is explored over a reduced alphabet (namespaces twin_a/twin_b/fan, one language per history, "
-            "pps=limit in the prefix, reuse all-or-nothing)"
+            "pps=limit in the prefix, LanguageContext reuse pattern in {never, always, prefix only})"
         )
     ctx.cap(
         "depth >= 2: prefix events use the full type set in sorted order with pps in {none, limit} "
